@@ -433,7 +433,15 @@ func GetOrCreateDomain(db *sql.DB, domain string) (int64, error) {
 	if err == nil {
 		return id, nil
 	}
-	return CreateDomain(db, domain)
+	id, err = CreateDomain(db, domain)
+	if err != nil {
+		// Race: another session or process created the domain; select again
+		if existingID, lookupErr := GetDomainByName(db, domain); lookupErr == nil {
+			return existingID, nil
+		}
+		return 0, err
+	}
+	return id, nil
 }
 
 // User management functions
